@@ -399,6 +399,11 @@ def run(ctx):
     ctx.floor("C06.R6", 1, "per-block skip flags of Graph::run (the retired vector)")
     from . import c09
     c09.rule_r5(facts, ctx, rule_id="C06.R4")
+    # "does not depend on the stream buffer size": carried state built from samples the call did not consume changes with how
+    # much input happened to be waiting (seed s8-c06) - same rule as C08.R10
+    from . import c08, c19
+    c08.rule_r10(facts, c19._Retag(ctx, "C08.R10", "C06.R7"))
+    ctx.floor("C06.R7", 10, "hand-written work() bodies that consume part of a window (same rule as C08.R10)")
     ctx.floor("C06.R4", 60, "WaitForStream verdicts with a visible amount (no demand that grows with a peer's backlog)")
     from .. import controls
     controls.expect(ctx, "C06.R1", lambda f, c: rule_r1(f, c, st_sites(f)), "BadRunner", "Again arm leaves done == true")
